@@ -12,7 +12,7 @@ HYPOTHESES = ["ModelBilinearCode (C01_ProtoModel / Lemmas/ModelPairing): the pai
 NOT_YET_PROVED = ['bilinearity of the model pairing; cross-suite/cross-tag rejection carries the visible hash-inequality hypothesis (random-oracle assumption)']
 ASSUMPTIONS = ["cross-suite / cross-tag rejection relies on hash_to_curve(m, DST) != hash_to_curve(m', DST') (random-oracle assumption)"]
 nontrivial = nontrivial_default
-EXTRA_MODULES = {"Props.C01_ProtoHB2": "PyEcc.C02.", "Props.C01_ProtoND": "PyEcc.C02.", "Props.C01_ProtoModel": "PyEcc.C02.", "Props.TieBls": "PyEcc.Tie."}
+EXTRA_MODULES = {"Props.C01_ProtoHB2": "PyEcc.C02.", "Props.C01_ProtoND": "PyEcc.C02.", "Props.C01_ProtoModel": "PyEcc.C02.", "Props.TieBls": "PyEcc.Tie.", "Props.TieCodec": "PyEcc.Tie."}
 
 CHUNK = 3
 
